@@ -34,6 +34,7 @@ EXPLANATION = (
     ' (R6, shared with C06.R9) the transport is written only by _send_request or helpers reached only from it.'
     " (R7) self._comm_addr is a constructor parameter stored unchanged on every path and forwarded by the subclasses' constructors: the frames carry the configured bus address."
     ' (R4, without _next_tx) a counter kept inside request_bytes must be one process-wide cell and its update, followed from the initial value, must yield a different non-zero 16-bit id each time.'
+    ' (R2 mask) a masked hex field keeps every bit of the field (0xFFFF for 4 digits).'
 )
 
 
@@ -719,6 +720,12 @@ def r2_r3(ctx: Ctx, rep: Report):
             lo, hi, why = bounds.of(expr, fn, facts, sym)
             limit = 16 ** nd - 1
             fkey = "field:%s:%s:%s" % (fn.short, norm(expr), nd)
+            # a masked field carries its argument (mod 16^digits) only if the mask keeps every bit of the field
+            if isinstance(expr, ast.BinOp) and isinstance(expr.op, ast.BitAnd):
+                mk = next((m for m in (_const(prog, fn, expr.left), _const(prog, fn, expr.right)) if isinstance(m, int)), None)
+                if mk is not None:
+                    rep.check(mk == limit, "C03.R2", "mask:%s:%s:%s" % (fn.short, norm(expr), nd), fn.loc(call), "{%s:0%dx}: the mask keeps all %d bits of the field" % (norm(expr), nd, 4 * nd),
+                              bad="%s interpolates {%s:0%dx}: the mask 0x%X is not 0x%X, so the field does not carry the argument's two's complement (bits are dropped)" % (fn.short, norm(expr), nd, mk, limit))
             if lo is None or lo < 0:
                 rep.violation("C03.R2", fkey, fn.loc(call), "%s interpolates {%s:0%dx} whose value may be negative (%s): format() yields a '-' and the frame cannot even be built (bytes.fromhex fails)" % (
                     fn.short, norm(expr), nd, why))
